@@ -960,8 +960,78 @@ def a3(ctx, res):
     if al is None:
         res.ok("statham/schema/elements/composition.py::AllOf", "AllOf uses the union annotation", reason="the union covers the first branch")
         return
-    filters = any(isinstance(n, ast.GeneratorExp) and n.generators[0].ifs for n in ast.walk(al.node))
+    filters = any(isinstance(n, (ast.GeneratorExp, ast.ListComp)) and n.generators[0].ifs for n in ast.walk(al.node))
     res.check(not (first_result and filters), al, "AllOf.annotation picks the first non-Any, non-Union member",
               reason="_attempt_schemas builds an allOf result from elements[0], but AllOf.annotation skips members annotated "
                      "Any/Union: AllOf(Element(), SomeObject) is annotated SomeObject while the runtime value is the anonymous "
                      "dict built by Element() - the exact shape the parser produces for $ref plus sibling keywords")
+
+    # second clause: among the members it may draw from, AllOf.annotation chooses by POSITION (the first that qualifies) -
+    # the runtime value is built by elements[0]; an annotation chosen by rank, membership or a translation table names a
+    # member that does not build the value
+    bodies = [(al, {"self"})]
+    seen_f = {al.qualname}
+    reports = []
+    unknown = []
+    i = 0
+    while i < len(bodies) and i < 6:
+        fn, tainted = bodies[i]
+        i += 1
+        tainted = set(tainted)
+        changed = True
+        stmts = list(walk_own(fn.body))
+        while changed:
+            changed = False
+            for n in stmts:
+                tgt = None
+                if isinstance(n, ast.Assign) and len(n.targets) == 1 and isinstance(n.targets[0], ast.Name):
+                    tgt, val = n.targets[0].id, n.value
+                elif isinstance(n, ast.AnnAssign) and isinstance(n.target, ast.Name) and n.value is not None:
+                    tgt, val = n.target.id, n.value
+                elif isinstance(n, ast.comprehension) and isinstance(n.target, ast.Name):
+                    tgt, val = n.target.id, n.iter
+                if tgt and tgt not in tainted and any(isinstance(x, ast.Name) and x.id in tainted for x in ast.walk(val)):
+                    tainted.add(tgt)
+                    changed = True
+        tainted.discard("self")
+
+        def is_t(e):
+            return any((isinstance(x, ast.Name) and x.id in tainted) or norm(x) == "self.elements" for x in ast.walk(e))
+        for n in stmts:
+            if isinstance(n, ast.Call):
+                d = dotted(n.func)
+                if d in ("sorted", "min", "max", "reversed") and n.args and is_t(n.args[0]):
+                    reports.append((fn, n, f"{d}() ranks the members"))
+                elif isinstance(n.func, ast.Attribute) and n.func.attr == "get" and n.args and is_t(n.args[0]) \
+                        and not is_t(n.func.value):
+                    reports.append((fn, n, "a member's annotation is translated through a table"))
+                elif isinstance(n.func, ast.Name) and any(is_t(a) for a in n.args) and d not in (
+                        "next", "iter", "list", "tuple", "len", "bool", "isinstance", "str", "any", "all", "enumerate", "filter", "map"):
+                    r = ctx.prog.resolve_in(fn, n.func.id)
+                    callee = r[1] if r and r[0] == "func" and hasattr(r[1], "body") else None
+                    if callee is None:
+                        unknown.append(norm(n)[:60])
+                    elif callee.qualname not in seen_f:
+                        seen_f.add(callee.qualname)
+                        bodies.append((callee, {p_.name for p_, a in zip(callee.params, n.args) if is_t(a)}))
+            if isinstance(n, ast.Subscript) and isinstance(n.ctx, ast.Load) and is_t(n.value):
+                if isinstance(n.slice, ast.Constant) and n.slice.value == 0:
+                    continue
+                if isinstance(n.slice, ast.Slice) and n.slice.step is None:
+                    continue
+                if not is_t(n.slice) or isinstance(n.slice, (ast.Constant, ast.UnaryOp)):
+                    reports.append((fn, n, "a member other than the first is indexed"))
+            if isinstance(n, ast.Subscript) and isinstance(n.ctx, ast.Load) and not is_t(n.value) and is_t(n.slice) \
+                    and isinstance(n.value, ast.Name) and n.value.id.isupper():
+                reports.append((fn, n, "a member's annotation is translated through a table"))
+            if isinstance(n, ast.Compare) and any(isinstance(o, (ast.In, ast.NotIn)) for o in n.ops) and \
+                    any(isinstance(c_, ast.Name) and c_.id in tainted for c_ in n.comparators):
+                reports.append((fn, n, "chosen by membership among the members' annotations, not by position"))
+    for fn, n, why in reports:
+        res.violation(fn, norm(n)[:80], reason=why + ": _attempt_schemas builds an allOf result from elements[0], so an "
+                      "annotation taken from a later or stricter member (AllOf(Number(), Integer()) announced as int while the "
+                      "value is the float Number() built) is unsound")
+    if not reports:
+        res.judge(None if unknown else True, al, "members are chosen by position",
+                  detail={"functions": sorted(seen_f), "unresolved": unknown},
+                  reason="no ranking, membership test or translation of member annotations in AllOf.annotation or its helpers")
